@@ -47,7 +47,7 @@ let handle = function
   | ["spec07"; chain; tbl; v] -> if spec_C07_ok fc (parse_tbl tbl) (unhex chain) (v = "P") then "ok" else "bad"
   (* full ruid euid tty chain -> ok P|D  (built-in filters modelled) *)
   | ["full"; r; e; tty; chain] -> res_pd (chain_full fc (n_of_string r) (n_of_string e) (tty = "1") (unhex chain))
-  | ["uidf"; w; r; e; arg] -> "ok\t" ^ pd (uid_filter fc (n_of_string r) (n_of_string e) (which_of w) (unhex arg))
+  | ["uidf"; w; r; e; arg] | ["uidf"; w; r; e; arg; _] -> "ok\t" ^ pd (uid_filter fc (n_of_string r) (n_of_string e) (which_of w) (unhex arg))
   | ["spec14"; w; r; arg; v] -> if spec_C14_ok (n_of_string r) (which_of w) (unhex arg) (v = "P") then "ok" else "bad"
   | ["compl"; a; b] -> if spec_C14_complement (a = "P") (b = "P") then "ok" else "bad"
   | ["wf"; arg] -> "ok\t" ^ (if wf_list (unhex arg) then "1" else "0")
